@@ -1,6 +1,7 @@
 package main
 
 import (
+	"bytes"
 	"encoding/hex"
 	"fmt"
 	"math/rand"
@@ -32,7 +33,53 @@ func showI32s(l []int32) string {
 	return strings.Join(ss, ",")
 }
 
+// showBytes prints a byte string in full (case lines)
 func showBytes(b []byte) string { return "x" + hex.EncodeToString(b) }
+
+// compactBytes prints a byte string for a case line with long runs of one byte as R<n>*<hh> segments
+func compactBytes(b []byte) string {
+	if len(b) < 256 {
+		return showBytes(b)
+	}
+	segs := []string{}
+	lit := []byte{}
+	flush := func() {
+		if len(lit) > 0 {
+			segs = append(segs, showBytes(lit))
+			lit = nil
+		}
+	}
+	for i := 0; i < len(b); {
+		j := i
+		for j < len(b) && b[j] == b[i] {
+			j++
+		}
+		if j-i >= 64 {
+			flush()
+			segs = append(segs, fmt.Sprintf("R%d*%02x", j-i, b[i]))
+		} else {
+			lit = append(lit, b[i:j]...)
+		}
+		i = j
+	}
+	flush()
+	if len(segs) == 0 {
+		return "x"
+	}
+	return strings.Join(segs, "+")
+}
+
+// outBytes prints an OUTPUT: byte strings longer than 4096 bytes become X<len>:<fnv64> on both sides
+func outBytes(b []byte) string {
+	if len(b) > 4096 {
+		h := uint64(14695981039346656037)
+		for _, v := range b {
+			h = (h ^ uint64(v)) * 1099511628211
+		}
+		return fmt.Sprintf("X%d:%d", len(b), h)
+	}
+	return "x" + hex.EncodeToString(b)
+}
 
 func showBytesList(l [][]byte) string {
 	if len(l) == 0 {
@@ -76,12 +123,54 @@ func mustI64(s string) int64 {
 
 func mustI32(s string) int32 { return int32(mustI64(s)) }
 
+// Arenas: argument slices of equal length are handed out from the same backing array again and again,
+// so that consecutive calls see the same addresses with different contents (a cache keyed by slice
+// address, or state kept from an earlier call, then meets a changed input).
+var (
+	arenaU64 = map[int][]uint64{}
+	arenaI32 = map[int][]int32{}
+	arenaStr = map[int][]string{}
+)
+
+func allocU64(n int) []uint64 {
+	if b, ok := arenaU64[n]; ok && n > 0 && n <= 1<<16 {
+		return b
+	}
+	b := make([]uint64, n)
+	if n > 0 && n <= 1<<16 {
+		arenaU64[n] = b
+	}
+	return b
+}
+
+func allocI32(n int) []int32 {
+	if b, ok := arenaI32[n]; ok && n > 0 && n <= 1<<16 {
+		return b
+	}
+	b := make([]int32, n)
+	if n > 0 && n <= 1<<16 {
+		arenaI32[n] = b
+	}
+	return b
+}
+
+func allocStr(n int) []string {
+	if b, ok := arenaStr[n]; ok && n > 0 {
+		return b
+	}
+	b := make([]string, n)
+	if n > 0 {
+		arenaStr[n] = b
+	}
+	return b
+}
+
 func parseU64s(s string) []uint64 {
 	if s == "-" {
 		return []uint64{}
 	}
 	parts := strings.Split(s, ",")
-	r := make([]uint64, len(parts))
+	r := allocU64(len(parts))
 	for i, p := range parts {
 		r[i] = mustU64(p)
 	}
@@ -100,13 +189,34 @@ func parseI32s(s string) []int32 {
 	return r
 }
 
+// parseBytes: segments joined by '+', each x<hex> or R<n>*<hh> (n copies of byte hh)
 func parseBytes(s string) []byte {
-	if !strings.HasPrefix(s, "x") {
-		panic("harness: bad bytes " + s)
+	out := []byte{}
+	for _, seg := range strings.Split(s, "+") {
+		switch {
+		case strings.HasPrefix(seg, "x"):
+			b, err := hex.DecodeString(seg[1:])
+			if err != nil {
+				panic("harness: bad hex " + seg[:min(len(seg), 40)])
+			}
+			out = append(out, b...)
+		case strings.HasPrefix(seg, "R"):
+			f := strings.Split(seg[1:], "*")
+			b, err := hex.DecodeString(f[1])
+			if len(f) != 2 || err != nil || len(b) != 1 {
+				panic("harness: bad repeat segment " + seg)
+			}
+			out = append(out, bytes.Repeat(b, int(mustI64(f[0])))...)
+		default:
+			panic("harness: bad bytes " + seg[:min(len(seg), 40)])
+		}
 	}
-	b, err := hex.DecodeString(s[1:])
-	if err != nil {
-		panic("harness: bad hex " + s)
+	return out
+}
+
+func min(a, b int) int {
+	if a < b {
+		return a
 	}
 	return b
 }
@@ -125,7 +235,7 @@ func parseBytesList(s string) [][]byte {
 
 func parseStrList(s string) []string {
 	bl := parseBytesList(s)
-	r := make([]string, len(bl))
+	r := allocStr(len(bl))
 	for i, b := range bl {
 		r[i] = string(b)
 	}
@@ -139,7 +249,7 @@ func parseNested(s string) [][]int32 {
 	parts := strings.Split(s, ";")
 	r := make([][]int32, len(parts))
 	for i, p := range parts {
-		r[i] = parseI32s(p)
+		r[i] = append([]int32(nil), parseI32s(p)...) // fresh: inner lists of equal length must not alias
 	}
 	return r
 }
